@@ -422,7 +422,10 @@ class ColorValue(Value):
                             raw.append(int(255 * item.value.value / 100))
                         check += 'P'
 
-                if HSL:
+                if len(raw) < 3:
+                    # too few components, reported below: nothing to convert
+                    rgba = [0, 0, 0]
+                elif HSL:
                     # convert to rgb
                     # h is 360 based (circle)
                     h, s, l_ = raw[0] / 360.0, raw[1], raw[2]
